@@ -76,6 +76,7 @@ type Machine struct {
 	natives    map[string]interface{} // per-path engine objects (stores, ctx)
 	symDecides int
 	guards     []*Term // active vp.SetIf conditions (guarded store writes)
+	marsh      []*marshalled
 	curRep    *EntryReport
 	curMu      *sync.Mutex
 }
